@@ -574,7 +574,7 @@ package hashgraph
 //@   modifies nothing
 //@   ensures[fresh]        ret1 == nil ==> ret0 != nil && __fresh(ret0) && len(ret0.Body.Parents) == 2
 //@   ensures[creator-only] ret1 == nil ==> (forall k int :: 0 <= k && k < len(ret0.Body.BlockSignatures) ==> __seqeq(ret0.Body.BlockSignatures[k].Validator, ret0.Body.Creator))
-//@   ensures[payload]      ret1 == nil ==> __eq(ret0.Body.Transactions, wevent.Body.Transactions) && __eq(ret0.Body.InternalTransactions, wevent.Body.InternalTransactions) && ret0.Body.Index == wevent.Body.Index && ret0.Body.Timestamp == wevent.Body.Timestamp && ret0.Signature == wevent.Signature
+//@   ensures[payload]      ret1 == nil ==> __eq(ret0.Body.Transactions, wevent.Body.Transactions) && __eq(ret0.Body.InternalTransactions, wevent.Body.InternalTransactions) && ret0.Body.Index == wevent.Body.Index && int64(ret0.Body.Timestamp) == int64(wevent.Body.Timestamp) && ret0.Signature == wevent.Signature
 //@   ensures[parents]      ret1 == nil ==> (wevent.Body.SelfParentIndex < 0 ==> ret0.Body.Parents[0] == "") && (wevent.Body.SelfParentIndex >= 0 ==> __in(ret0.Body.Parents[0], G_events(h.Store)) && G_events(h.Store)[ret0.Body.Parents[0]].Body.Index == wevent.Body.SelfParentIndex) && (wevent.Body.OtherParentIndex < 0 ==> ret0.Body.Parents[1] == "") && (wevent.Body.OtherParentIndex >= 0 ==> __in(ret0.Body.Parents[1], G_events(h.Store)) && G_events(h.Store)[ret0.Body.Parents[1]].Body.Index == wevent.Body.OtherParentIndex)
 //@   ensures[refs]         ret1 == nil ==> ret0.Body.selfParentIndex == wevent.Body.SelfParentIndex && ret0.Body.otherParentCreatorID == wevent.Body.OtherParentCreatorID && ret0.Body.otherParentIndex == wevent.Body.OtherParentIndex && ret0.Body.creatorID == wevent.Body.CreatorID
 //@   ensures[sigs]         ret1 == nil ==> (wevent.Body.BlockSignatures == nil) == (ret0.Body.BlockSignatures == nil) && len(ret0.Body.BlockSignatures) == len(wevent.Body.BlockSignatures) && (forall k int :: 0 <= k && k < len(ret0.Body.BlockSignatures) ==> ret0.Body.BlockSignatures[k].Index == wevent.Body.BlockSignatures[k].Index && ret0.Body.BlockSignatures[k].Signature == wevent.Body.BlockSignatures[k].Signature)
@@ -795,7 +795,7 @@ package hashgraph
 //@   safety on
 //@   requires e != nil
 //@   modifies nothing
-//@   ensures[payload]   __eq(ret0.Body.Transactions, e.Body.Transactions) && __eq(ret0.Body.InternalTransactions, e.Body.InternalTransactions) && ret0.Body.Index == e.Body.Index && ret0.Body.Timestamp == e.Body.Timestamp && ret0.Signature == e.Signature
+//@   ensures[payload]   __eq(ret0.Body.Transactions, e.Body.Transactions) && __eq(ret0.Body.InternalTransactions, e.Body.InternalTransactions) && ret0.Body.Index == e.Body.Index && int64(ret0.Body.Timestamp) == int64(e.Body.Timestamp) && ret0.Signature == e.Signature
 //@   ensures[refs]      ret0.Body.SelfParentIndex == e.Body.selfParentIndex && ret0.Body.OtherParentCreatorID == e.Body.otherParentCreatorID && ret0.Body.OtherParentIndex == e.Body.otherParentIndex && ret0.Body.CreatorID == e.Body.creatorID
 //@   ensures[sigs]      (ret0.Body.BlockSignatures == nil) == (e.Body.BlockSignatures == nil) && len(ret0.Body.BlockSignatures) == len(e.Body.BlockSignatures) && (forall k int :: 0 <= k && k < len(ret0.Body.BlockSignatures) ==> ret0.Body.BlockSignatures[k].Index == e.Body.BlockSignatures[k].Index && ret0.Body.BlockSignatures[k].Signature == e.Body.BlockSignatures[k].Signature)
 
